@@ -427,6 +427,20 @@ class Shadow:
         self.memory = []
         self.claims = list(claims)
         self.published = []      # proof phase: conclusions published, in order
+        self.residue = set()     # stack positions (from the bottom) whose entry was published (D8 residues)
+
+    def trim(self):
+        self.residue = {i for i in self.residue if i < len(self.stack)}
+
+    def residue_pos(self, k):
+        """positions among the top k entries that are residues"""
+        n = len(self.stack)
+        self.trim()
+        return {i for i in self.residue if i >= n - k}
+
+    def mark_top(self):
+        if self.stack:
+            self.residue.add(len(self.stack) - 1)
 
 
 def build_calls(p, out, sh=None, memo=None):
@@ -467,9 +481,10 @@ def delta_txt(d):
 class HistGen:
     """random call histories inside one phase or across the three phases"""
 
-    def __init__(self, rng, cfg, notation=0.15, wrong=0.03, wild=0.1):
+    def __init__(self, rng, cfg, notation=0.15, wrong=0.03, wild=0.1, avoid_residue=True):
         self.rng, self.cfg = rng, cfg
         self.notation, self.wrong, self.wild = notation, wrong, wild
+        self.avoid_residue = avoid_residue
 
     # -- argument rendering: the shadow's entry, possibly re-notated, rarely wrong
     def arg(self, q):
@@ -498,10 +513,18 @@ class HistGen:
             moves += ['axiom', 'axiom', 'inst', 'inst', 'mpchain', 'mpchain']
         if sh.memory:
             moves += ['load', 'load']
+        if top and top[0] == 'T' and top[1][0] == 'i':
+            moves += ['gen', 'gen', 'gen']
+        if self.avoid_residue and (len(st) - 1) in sh.residue_pos(2) and rng.random() < 0.93:
+            # the top (or the entry below it) is a publish residue: do not read it
+            moves = ['atom', 'tree', 'axiom', 'inst', 'ipat', 'mpchain'] + (['load'] if sh.memory else [])
+            if (len(st) - 1) not in sh.residue_pos(1):
+                moves += ['ex', 'save', 'pop', 'publish'] if top[0] == 'P' else ['save', 'pop', 'publish']
         if rng.random() < self.wild:
             moves = ['im', 'ap', 'ex', 'mu', 'subst', 'mp', 'gen', 'inst0', 'ipat', 'pop', 'save', 'load', 'publish',
                      'wildpub']
         m = rng.choice(moves)
+        sh.trim()
 
         if m == 'atom':
             p = gen_pat(rng, 0, cfg)
@@ -578,6 +601,11 @@ class HistGen:
         elif m == 'ipat':
             # instantiate_pattern on the top pattern with plugs that must lie below it: build plugs, rebuild
             body = gen_pat(rng, rng.choice([1, 2]), cfg)
+            if rng.random() < 0.3:
+                head = gen_metavar(rng, cfg)
+                body = ('E' if rng.random() < 0.5 else 'S', head, rid(rng, cfg), gen_pat(rng, 1, cfg))
+                if rng.random() < 0.4:
+                    body = ('i', body, gen_pat(rng, 1, cfg))
             ids = sorted(metavars(body))
             ids = rng.sample(ids, rng.randrange(len(ids) + 1)) if ids else []
             if rng.random() < 0.15:
@@ -663,12 +691,16 @@ class HistGen:
                 calls.append('pa:' + show(self.arg(t[1])))
                 if st and t[0] == 'P' and sh.phase == 'G':
                     sh.memory.append(('T', t[1]))
+                    sh.mark_top()
             elif ph == 'C':
                 calls.append('pc:' + show(self.arg(t[1])))
+                if st and t[0] == 'P' and sh.phase == 'C':
+                    sh.mark_top()
             else:
                 calls.append('pp:' + show(self.arg(t[1])))
                 if st and t[0] == 'T' and sh.phase == 'P':
                     sh.published.append(t[1])
+                    sh.mark_top()
 
     def phase_history(self, phase, n_moves, memory_axioms=()):
         """a history inside one phase from a fresh interpreter -> (claims, calls)"""
@@ -682,13 +714,19 @@ class HistGen:
             claims = [gen_pat(self.rng, 1, self.cfg) for _ in range(self.rng.randrange(3))]
         return claims, calls, sh
 
-    def module_history(self, n_ax, n_cl, n_moves):
+    def module_history(self, n_ax, n_cl, extra=0.15):
         """gamma (axioms published), claims (reversed), proofs: the shape proof.py produces, with
-        random extra moves in between -> (claims, calls)"""
+        random extra moves in between (probability `extra` after each item) -> (claims, calls, shadow)"""
         rng, cfg = self.rng, self.cfg
         sh = Shadow('G')
         calls = []
         axioms = []
+
+        def extras():
+            while rng.random() < extra:
+                self.step(sh, calls, [a for a in axioms if ('T', a) in sh.memory])
+
+        extras()
         for _ in range(n_ax):
             a = gen_pat(rng, rng.choice([1, 2, 2]), cfg)
             axioms.append(a)
@@ -699,11 +737,12 @@ class HistGen:
             sh.stack.append(('P', a))
             calls.append('pa:' + show(self.arg(a)))
             sh.memory.append(('T', a))
-            if rng.random() < 0.2:
-                self.step(sh, calls, axioms)
+            sh.mark_top()
+            extras()
         calls.append('ic')
         sh.phase = 'C'
         sh.stack = []
+        sh.residue = set()
         # the claims: things provable by the mpchain macro:  q -> A
         proofs = []
         for _ in range(n_cl):
@@ -715,13 +754,18 @@ class HistGen:
                 k = rng.choice([PROP1, PROP2, PROP3, QUANT])
                 proofs.append((k, None, None))
         claims = [c for c, _, _ in proofs]
+        extras()
         for c, _, _ in reversed(proofs):
             build_calls(c, calls)
             sh.stack.append(('P', c))
             calls.append('pc:' + show(self.arg(c)))
+            sh.mark_top()
+            extras()
         calls.append('if')
         sh.phase = 'P'
         sh.stack = []
+        sh.residue = set()
+        extras()
         for c, A, q in proofs:
             if A is None:
                 calls.append({id(PROP1): 'p1', id(PROP2): 'p2', id(PROP3): 'p3', id(QUANT): 'qu'}[id(c)])
@@ -734,9 +778,8 @@ class HistGen:
                 calls.append(f'mp:{show(("i", A, ("i", q, A)))}:{show(self.arg(A))}')
             sh.stack.append(('T', c))
             calls.append('pp:' + show(self.arg(c)))
-            if rng.random() < 0.15:
-                for _ in range(rng.randrange(1, 4)):
-                    self.step(sh, calls, axioms)
+            sh.mark_top()
+            extras()
         return claims, calls, sh
 
 
